@@ -6,6 +6,7 @@ mod c02;
 mod c03;
 mod c04;
 mod c05;
+mod c06;
 mod c07;
 mod c08;
 mod c12;
@@ -15,6 +16,7 @@ mod c15;
 mod c16;
 mod c17;
 mod c18;
+mod c20;
 mod dbg;
 mod dump;
 mod progs;
@@ -50,8 +52,10 @@ fn main() {
         "c04" => c04::emit(&mut e, seed, thorough),
         "c08" => c08::emit(&mut e, seed, thorough),
         "c07" => c07::emit(&mut e, seed, thorough),
+        "c06" => c06::emit(&mut e, seed, thorough),
         "c05" => c05::emit(&mut e, seed, thorough),
         "c12" => c12::emit(&mut e, seed, thorough),
+        "c20" => c20::emit(&mut e, seed, thorough),
         "c18" => c18::emit(&mut e, seed, thorough),
         "c17" => c17::emit(&mut e, seed, thorough),
         "c16" => c16::emit(&mut e, seed, thorough),
